@@ -179,6 +179,46 @@ THEOREM DomForallImp == \* V{x} in %A%: ({x} => %T%)  =  ~%A% | %T%
   PROVE  {s \in S : \A v \in A : s \in (S \ {v}) \cup T} = (S \ A) \cup T
 OBVIOUS
 
+(* ---- the converter's Shannon expansion (Converter.Explode), one level, for an arbitrary set X of valuations ---- *)
+(* ---- of the remaining arguments: the induction step behind MC_Converter's completeness check              ---- *)
+Ite(a, t, e) == (a => t) /\ (~a => e)          \* what Explode builds at every level
+
+THEOREM ShannonStep ==
+  ASSUME NEW a \in BOOLEAN, NEW t \in BOOLEAN, NEW e \in BOOLEAN
+  PROVE  Ite(a, t, e) = (IF a THEN t ELSE e)
+BY DEF Ite
+
+(* every function of (a, x) is reached: choose the two cofactors *)
+THEOREM ShannonSurjective ==
+  ASSUME NEW X, NEW g \in [BOOLEAN \X X -> BOOLEAN]
+  PROVE  \E t \in [X -> BOOLEAN], e \in [X -> BOOLEAN] :
+           \A a \in BOOLEAN, x \in X : Ite(a, t[x], e[x]) = g[<<a, x>>]
+<1> DEFINE t0 == [x \in X |-> g[<<TRUE, x>>]]
+           e0 == [x \in X |-> g[<<FALSE, x>>]]
+<1>1. t0 \in [X -> BOOLEAN] /\ e0 \in [X -> BOOLEAN]
+  OBVIOUS
+<1>2. \A a \in BOOLEAN, x \in X : Ite(a, t0[x], e0[x]) = g[<<a, x>>]
+  BY DEF Ite
+<1> QED BY <1>1, <1>2
+
+(* ... and by exactly one pair of cofactors: distinct constants valuations give distinct functions *)
+THEOREM ShannonInjective ==
+  ASSUME NEW X, NEW t \in [X -> BOOLEAN], NEW e \in [X -> BOOLEAN],
+         NEW t2 \in [X -> BOOLEAN], NEW e2 \in [X -> BOOLEAN],
+         \A a \in BOOLEAN, x \in X : Ite(a, t[x], e[x]) = Ite(a, t2[x], e2[x])
+  PROVE  t = t2 /\ e = e2
+<1>1. \A x \in X : t[x] = t2[x]
+  <2> TAKE x \in X
+  <2>1. Ite(TRUE, t[x], e[x]) = Ite(TRUE, t2[x], e2[x])
+    OBVIOUS
+  <2> QED BY <2>1 DEF Ite
+<1>2. \A x \in X : e[x] = e2[x]
+  <2> TAKE x \in X
+  <2>1. Ite(FALSE, t[x], e[x]) = Ite(FALSE, t2[x], e2[x])
+    OBVIOUS
+  <2> QED BY <2>1 DEF Ite
+<1> QED BY <1>1, <1>2
+
 (* over an empty domain exists is false and forall is true *)
 THEOREM EmptyDomain ==
   ASSUME NEW S, NEW Phi \in [S -> SUBSET S]
